@@ -147,6 +147,34 @@ def system_io(rec, hub, rng, i):
                     plt.close(fig)
             except Exception:
                 pass
+    # lifetime models given plain arrays of their own shape (also with an exact zero in the spread): whatever the model does with them
+    # - construction, table builds, a stock computed on it - the user's arrays stay bit-identical
+    tdim_p = fd.Dimension(letter="t", name="time", items=[2000, 2001, 2002, 2004])
+    ds_p = fd.DimensionSet(dim_list=[tdim_p, U["a"]])
+    for mname, pnames in (("NormalLifetime", ("mean", "std")), ("LogNormalLifetime", ("mean", "std")), ("FoldedNormalLifetime", ("mean", "std")), ("WeibullLifetime", ("weibull_shape", "weibull_scale")), ("FixedLifetime", ("mean",))):
+        user = {}
+        for pn in pnames:
+            v_ = rng.uniform(1.0, 4.0, size=ds_p.shape)
+            if pn == "std" and rng.random() < 0.7:
+                v_.reshape(-1)[int(rng.integers(0, v_.size))] = 0.0
+            user[pn] = np.asfortranarray(v_) if rng.random() < 0.3 else v_
+        kept = {k_: v_.copy() for k_, v_ in user.items()}
+        rec.event("inputs-unchanged", sig=f"lifetime-parameter-arrays|{mname}", cls=f"lifetime-model-from-plain-arrays|{mname}")
+        try:
+            with np.errstate(all="ignore"):
+                how = int(rng.integers(0, 2))
+                lm_p = getattr(fd, mname)(dims=ds_p, time_letter="t", **user) if how == 0 else getattr(fd, mname)(dims=ds_p, time_letter="t")
+                if how == 1:
+                    lm_p.set_prms(**user)
+                lm_p.sf
+                lm_p.pdf
+                st_p = fd.InflowDrivenDSM(dims=ds_p, inflow=fd.StockArray(dims=ds_p, values=np.ones(ds_p.shape)), lifetime_model=lm_p, time_letter="t")
+                st_p.compute()
+        except Exception:
+            pass
+        for k_, v_ in user.items():
+            if v_.tobytes() != kept[k_].tobytes() and not np.array_equal(v_, kept[k_], equal_nan=True) or (v_ != kept[k_]).any():
+                rec.violation("inputs-unchanged", "lifetime-model-changed-a-parameter-array-it-was-given", {"model": mname, "parameter": k_, "n_changed": int((v_ != kept[k_]).sum()), "example_before_after": [float(kept[k_][v_ != kept[k_]][0]), float(v_[v_ != kept[k_]][0])]})
     tdim = fd.Dimension(letter="t", name="time", items=[2000, 2001, 2003, 2006])
     ds = fd.DimensionSet(dim_list=[tdim, U["a"]])
     inflow = fd.StockArray(dims=ds, values=np.abs(gen.values_one("dyadic", rng, ds.shape)))
